@@ -484,6 +484,12 @@ func genReq(t *rapid.T, label string, intact *bool) Req {
 				{"_id with a non-uuid", func(b map[string]any) {
 					b["query"] = map[string]any{"property": "_id", "string": map[string]any{"value": "nope", "operator": "equals"}}
 				}},
+				{"_id with a valid list and an invalid single id", func(b map[string]any) {
+					b["query"] = map[string]any{"property": "_id", "stringArray": map[string]any{"value": []any{poolIds[0], poolIds[1]}, "operator": "containsAny"}, "string": map[string]any{"value": "nope", "operator": "equals"}}
+				}},
+				{"_id with a valid list and a single id under another operator", func(b map[string]any) {
+					b["query"] = map[string]any{"property": "_id", "stringArray": map[string]any{"value": []any{poolIds[0]}, "operator": "containsAny"}, "string": map[string]any{"value": poolIds[0], "operator": "notEquals"}}
+				}},
 				{"_id with startsWith", func(b map[string]any) {
 					b["query"] = map[string]any{"property": "_id", "string": map[string]any{"value": poolIds[0], "operator": "startsWith"}}
 				}},
@@ -675,6 +681,18 @@ func genCase(t *rapid.T) Case {
 		jb, _ := json.Marshal(map[string]any{"id": "new1", "indexSchema": sch})
 		hd := map[string]string{"Content-Type": "application/json", "X-User-Id": "alice", "X-Plan-Id": plan}
 		c.Reqs = append(c.Reqs, Req{Method: "POST", Path: "/v2/collections", Headers: hd, Body: string(jb)})
+		if flat, ok := sch["vector"].(map[string]any); ok && flat["type"] == "vectorFlat" {
+			// the flat index has dimension 2, whatever the left-over section says: vectors of that length are
+			// accepted through v2, vectors of the left-over section's length are not
+			stray := int(flat["vectorVamana"].(map[string]any)["vectorSize"].(float64))
+			wrong := `[1]`
+			if stray == 3 {
+				wrong = `[1,2,3]`
+			}
+			c.Reqs = append(c.Reqs,
+				Req{Method: "POST", Path: "/v2/collections/new1/points", Headers: hd, Body: `{"points":[{"vector":` + wrong + `}]}`, MustReject: "vector of the length of a left-over section, not of the index"},
+				Req{Method: "POST", Path: "/v2/collections/new1/points/search", Headers: hd, Body: `{"query":{"property":"vector","vectorFlat":{"vector":[1,2],"operator":"near","limit":5}},"limit":5}`})
+		}
 		switch rapid.IntRange(0, 4).Draw(t, "v1-on-v2-op") {
 		case 0:
 			c.Reqs = append(c.Reqs, Req{Method: "GET", Path: "/v1/collections", Headers: hd})
